@@ -10,7 +10,8 @@ from vf.runner import Ctx
 PROPERTY = "C11"
 TECHNIQUE = ("metamorphic twin: same key and same concrete actions in env(time_limit=T) and env(T+5), "
              "Hypothesis-generated keys and survive-biased plans; structural-horizon bound for the others")
-RULE = ("time-limited envs: cases = (env, entry, T in {1,2,3,7,default/None}, key, survive-biased plan); the plan is "
+RULE = ("time-limited envs: cases = (env, entry, T in {1,2,3,7,default/None}, key, survive-biased plan or a plan mixing "
+        "illegal/raw actions); the plan is "
         "played in env(T+5), the concrete actions are replayed in env(T); step types must agree before step T, "
         "env(T) must return LAST at step T exactly and env(T+5) at T+5; non-trivial = episodes that survive to step "
         "T; horizon envs: first LAST no later than the structural bound computed from the reset state, non-trivial "
@@ -189,7 +190,8 @@ def run_item(item, seed, tier):
                         ctx.fail(o, env, s, m + f" [entry={entry} key={list(key)}]", case, size=len(acts))
 
             hyp.drive({"key": episodes.keys(),
-                       "plan": episodes.plans(max_len=24, styles=("survive", "legal", "survive"), min_len=4)},
+                       "plan": episodes.plans(max_len=24, styles=("survive", "legal", "survive", "chaos", "legalish", "solveish"),
+                                              min_len=4)},
                       one, seed, item["n"])
         else:
             b = envs.bundle(env, entry)
